@@ -225,6 +225,14 @@ def run(ctx):
             ctx.check("C04.R2", "write_header: every metadata entry is written (no filter on the entries)", not cond, wh.where(), f"write_header: entries filtered by {cond}", "an entry the caller supplied (an empty string is a value) is dropped from the header: the reader does not report the metadata that was written")
         else:
             ctx.unrecognised("C04.R2", "write_header: every metadata entry is written", wh.where(), "the iteration over the metadata entries was not found")
+    # ... and the writer keeps every entry the caller supplied: the metadata it stores is not a filtered copy
+    gwi = p.maybe_func("_write_py:GenericWriter.__init__")
+    if gwi is not None and len(gwi.pos_params) > 2:
+        md_p = "metadata" if "metadata" in gwi.params else gwi.pos_params[2]
+        for n in walk_local(gwi.node):
+            if isinstance(n, ast.Assign) and any(norm(t) == "self.metadata" for t in n.targets):
+                filt = [c for c in ast.walk(n.value) if isinstance(c, (ast.DictComp, ast.ListComp, ast.GeneratorExp, ast.SetComp)) and any(g.ifs and md_p in names_in(g.iter) for g in c.generators)]
+                ctx.check("C04.R2", "GenericWriter: the metadata stored are all the entries the caller supplied", not filt, gwi.where(n), f"GenericWriter.__init__: {norm(n)[:100]}", "user metadata entries are dropped by a filter before they reach the header: the reader does not report the metadata that were supplied")
     rh = p.func("_read_py:file_reader._read_header")
     want = {
         "self.metadata": lambda t: "self._header['meta']" in t and ".decode()" in t,
